@@ -16,6 +16,9 @@ pub enum St {
 
 pub struct LedgerState {
     pub st: Vec<St>,
+    /// which side minted the id (0 = harness, 1 = bumpalo container, 2 = std reference)
+    pub side: Vec<u8>,
+    pub keys: Vec<u32>,
     /// ids dropped more than once (id, times)
     pub double: Vec<u32>,
     /// log of drops in order
@@ -25,7 +28,8 @@ pub struct LedgerState {
 }
 
 thread_local! {
-    static LEDGER: RefCell<LedgerState> = RefCell::new(LedgerState { st: Vec::new(), double: Vec::new(), log: Vec::new(), unknown: Vec::new() });
+    static LEDGER: RefCell<LedgerState> = RefCell::new(LedgerState { st: Vec::new(), side: Vec::new(), keys: Vec::new(), double: Vec::new(), log: Vec::new(), unknown: Vec::new() });
+    static SIDE: Cell<u8> = const { Cell::new(0) };
     /// fuse: panic when this counter reaches zero at a fuse point of the selected kind
     static FUSE: Cell<i64> = const { Cell::new(-1) };
     static FUSE_KIND: Cell<u8> = const { Cell::new(0) };
@@ -46,6 +50,8 @@ pub fn reset() {
     LEDGER.with(|l| {
         let mut l = l.borrow_mut();
         l.st.clear();
+        l.side.clear();
+        l.keys.clear();
         l.double.clear();
         l.log.clear();
         l.unknown.clear();
@@ -58,12 +64,53 @@ pub fn epoch() -> u32 {
     EPOCH.with(|e| e.get())
 }
 
-fn mint() -> u32 {
+fn mint(key: u32) -> u32 {
     let _p = halloc::pause();
+    let side = SIDE.with(|s| s.get());
     LEDGER.with(|l| {
         let mut l = l.borrow_mut();
         l.st.push(St::Live);
+        l.side.push(side);
+        l.keys.push(key);
         (l.st.len() - 1) as u32
+    })
+}
+
+/// values minted from now on belong to this side (1 = bumpalo program, 2 = std reference program)
+pub fn set_side(s: u8) {
+    SIDE.with(|c| c.set(s));
+}
+pub fn side_of(id: u32) -> u8 {
+    LEDGER.with(|l| l.borrow().side.get(id as usize).copied().unwrap_or(0))
+}
+pub fn key_of(id: u32) -> u32 {
+    LEDGER.with(|l| l.borrow().keys.get(id as usize).copied().unwrap_or(0))
+}
+/// keys dropped since `from`, per side, sorted
+pub fn dropped_keys_since(from: usize) -> (Vec<u32>, Vec<u32>) {
+    let _p = halloc::pause();
+    LEDGER.with(|l| {
+        let l = l.borrow();
+        let mut a = Vec::new();
+        let mut b = Vec::new();
+        for &id in &l.log[from..] {
+            match l.side.get(id as usize).copied().unwrap_or(0) {
+                1 => a.push(l.keys[id as usize]),
+                2 => b.push(l.keys[id as usize]),
+                _ => {}
+            }
+        }
+        a.sort();
+        b.sort();
+        (a, b)
+    })
+}
+/// ids of one side that are still live
+pub fn live_ids_of_side(side: u8) -> Vec<u32> {
+    let _p = halloc::pause();
+    LEDGER.with(|l| {
+        let l = l.borrow();
+        (0..l.st.len()).filter(|&i| l.st[i] == St::Live && l.side[i] == side).map(|i| i as u32).collect()
     })
 }
 
@@ -166,7 +213,7 @@ pub struct Tracked {
 
 impl Tracked {
     pub fn new(key: u32) -> Tracked {
-        let id = mint();
+        let id = mint(key);
         let _p = halloc::pause();
         Tracked { id, epoch: epoch(), key, heap: ManuallyDrop::new(Box::new(id)) }
     }
